@@ -391,6 +391,28 @@ def run_case(case, rec):
             for key, msg in dbdump.audit(fdb.path):
                 rec.violation('audit:' + key, msg)
             rec.event('recovery.remove')
+        # ---------------- a brand-new data directory whose very first operation is an add that fails
+        with env.FreshDB(init=False) as fdb2:
+            # (the database file is created and initialised inside this first, failing call)
+            try:
+                wn.add(ili_path, progress_handler=type('P', (Faulty,), {'flash': lambda self, msg: (_ for _ in ()).throw(faults.InjectedFault('first flash'))}))
+            except Exception:
+                pass
+            counter.n, counter.fail_at = 0, max(2, K // 3)
+            try:
+                wn.add(rpath, progress_handler=Faulty)
+            except Exception:
+                pass
+            counter.fail_at = None
+            m0 = ModelDB()
+            counter.n = 0
+            wn.add(rpath, progress_handler=Faulty)
+            m0.add_resource(R)
+            rec.event('first-operation-fails')
+            for sp in [f"{lx['id']}:{lx['version']}" for lx in R['lexicons']]:
+                compare(rec, m0, [sp], label='C06 add after the first-ever operation failed')
+            for key, msg in dbdump.audit(fdb2.path):
+                rec.violation('first-operation-fails:' + key, msg)
     finally:
         wnadd.connect = real_connect
         mon.uninstall()
